@@ -59,12 +59,18 @@ VALIDATOR (validate_path, V_PATH) VALIDATOR (validate_bus_namespace, V_BUS_NAMES
 static const char *const key_pool[] = { "arg", "arg0", "arg7", "arg63", "arg64", "arg7path", "arg63path", "arg64path", "arg0namespace", "arg1namespace",
                                          "arg5junk", "argpath", "arg12pathx", "arg0namespac" };
 #define NKEYS ((int) (sizeof key_pool / sizeof key_pool[0]))
+static unsigned long g_anynum; static int g_anynum_used; unsigned long nondet_ulong (void);
 static int g_set_arg_calls, g_set_arg; static dbus_bool_t g_set_is_path, g_set_is_ns; static const DBusString *g_value;
 /* _dbus_string_parse_uint on the pool keys: decimal digits without sign / leading zero (the only forms in the pool) */
 dbus_bool_t verif_stub_parse_uint (const DBusString *str, int start, unsigned long *value_return, int *end_return)
 {
   const char *s = _dbus_string_get_const_data (str); int n = _dbus_string_get_length (str); int k = start; unsigned long v = 0;
   PRE (start >= 0 && start <= n && value_return != NULL && end_return != NULL, "_dbus_string_parse_uint");
+#ifdef VERIF_ANYNUM
+  /* the digits may spell ANY unsigned long (up to 20 digits; keys like arg2147483648path): the value is arbitrary here */
+  if (k < n && s[k] >= '0' && s[k] <= '9') { while (k < n && s[k] >= '0' && s[k] <= '9') k++; g_anynum = nondet_ulong (); g_anynum_used = 1; *value_return = g_anynum; *end_return = k; return TRUE; }
+  return FALSE;
+#endif
   if (k < n && s[k] >= '0' && s[k] <= '9') { v = s[k] - '0'; k++; } else return FALSE;
   if (k < n && s[k] >= '0' && s[k] <= '9') { v = v * 10 + (s[k] - '0'); k++; }
   if (k < n && s[k] >= '0' && s[k] <= '9') { v = v * 10 + (s[k] - '0'); k++; }
@@ -93,7 +99,16 @@ void harness (void)
                  for (int k = 0; k < 3; k++) { A[k] = (k < r.args_len && nondet_bool ()) ? blk : NULL; L[k] = 0; } A[3] = NULL; L[3] = 0; A[r.args_len] = NULL; }
   g_oom = 0; g_set_arg_calls = 0; g_validations = 0; g_validated_by = V_NONE; g_validated_str = NULL;
 
+  g_anynum_used = 0;
   dbus_bool_t ok = bus_match_rule_parse_arg_match (&r, key, &value, &err);
+#ifdef VERIF_ANYNUM
+  /* "Only argument indexes from 0 to 63 should be accepted": whatever number the digits spell, an index above 63 is refused
+   * before it is used for anything (CBMC's pointer checks are the obligation that rule->args[] is never indexed with it) */
+  __CPROVER_assert (IMP (g_anynum_used && g_anynum > DBUS_MAXIMUM_MATCH_RULE_ARG_NUMBER, !ok && g_set_arg_calls == 0 && err.name != NULL), "anynum.post an argument number above 63 is refused, whatever its size");
+  __CPROVER_assert (IMP (ok, g_set_arg_calls == 1 && (unsigned long) g_set_arg == g_anynum), "anynum.post2 an accepted key sets exactly the spelled index");
+  if (ok) __CPROVER_assert (0, "REACH:accepted"); if (!ok && g_anynum_used && g_anynum > 0x7fffffff) __CPROVER_assert (0, "REACH:refused-huge-number");
+
+#else
 
   /* oracle: the key table ("arg[0, 1, 2, 3, ...]", "arg[0, 1, 2, 3, ...]path", "arg0namespace"; "Only argument indexes
    * from 0 to 63 should be accepted") as ref_key() of spec/match_ref.h */
@@ -111,6 +126,7 @@ void harness (void)
   __CPROVER_assert (IMP (!ok && !g_oom, g_set_arg_calls == 0), "post8 a refused key sets nothing");
   if (ok && kind == REF_KEY_ARG) REACH ("argN"); if (ok && kind == REF_KEY_ARGPATH) REACH ("argNpath"); if (ok && kind == REF_KEY_ARG0NAMESPACE) REACH ("arg0namespace");
   if (!ok && kind == REF_KEY_NONE) REACH ("bad-key"); if (!ok && occupied) REACH ("duplicate"); if (g_oom) REACH ("oom");
+#endif
 }
 #else
 /* ------------------------------------------------------------------------------------------------------------ */
